@@ -112,6 +112,17 @@ def variants(rng, prog, all_positions=True, per_pos=None):
         if vis:
             name = rng.choice(sorted(vis - {"acc"}))
             yield insert(prog, path, idx, ("bump", name)), "write %s at %s[%d]" % (name, list(path), idx), "use-visible"
+        # a declaration as the unbraced body of if / if-else / for / while: scoped to that statement
+        sk = rng.choice(["if", "for", "while"])   # (if-else with two unbraced declarations: the statement does not say whether the branches are scopes)
+        for cat, name in picks:
+            yield insert(prog, path, idx, ("stmtdecl", sk, name, ty, 5)), "unbraced %s-body decl %s at %s[%d]" % (sk, name, list(path), idx), "unbraced-" + cat
+        p2 = insert(prog, path, idx, ("stmtdecl", sk, "zz", ty, 5))
+        gs.scope_at(p2.root, path).items.insert(idx + 1, ("use", "zz"))
+        yield p2, "unbraced %s-body decl zz then use of zz at %s[%d]" % (sk, list(path), idx), "unbraced-use-after"
+        p3 = insert(prog, path, idx, ("stmtdecl", sk, "zz", ty, 5))
+        gs.scope_at(p3.root, path).items.insert(idx + 1, ("stmtdecl", rng.choice(["if", "for", "while"]), "zz", INT, 6))
+        gs.scope_at(p3.root, path).items.insert(idx + 2, ("decl", "zz", FLOAT, 7))
+        yield p3, "unbraced decls of zz twice then a plain declaration of zz at %s[%d]" % (list(path), idx), "unbraced-reuse"
 
 
 def run_shard(tier, seed, shard, n, R):
